@@ -1,8 +1,8 @@
 (** C01 — proofs about the runnable pipeline model (Model/PathSanPipe.v): the statements of
-    Proofs/PathSanProofs.v about one [serve] step are lifted to ALL histories of requests and
-    cache-alias steps, with the response cache threaded through. *)
+    Proofs/PathSanServeProofs.v about one [serve_st] step are lifted to ALL histories of requests and
+    cache-alias steps, with the response cache and the file cache threaded through. *)
 From Coq Require Import ZifyBool ZifyNat ZifyN.
-From KV Require Import Bytes PathSan PathSanProofs PathSanPipe.
+From KV Require Import Bytes PathSan PathSanProofs PathSanServe PathSanServeProofs PathSanPipe.
 Open Scope N_scope.
 
 (** the content [c] is the content of a regular file reached from the public directory [P] by
@@ -11,25 +11,36 @@ Definition inside (P : pos) (c : bytes) : Prop :=
   exists names : list bytes,
     names <> [] /\ Forall (fun s => proper_name s = true) names /\ descend (fst P) names = Some (File c).
 
+(** the content of one of the operator's error pages: of the file whose path is [error_path] of the
+    host and of some status code — no part of a request enters that path *)
+Definition error_page_of (c : pcfg) (b : bytes) : Prop :=
+  exists status : N, pc_fs c (error_path (pc_host c) status) = Some b.
+
 (** a body the fixture host may send: generated (error page, CORS refusal, empty), the body of one
-    of the operator's path-bound handlers, or the content of a file inside the public directory *)
+    of the operator's path-bound handlers, the content of a file inside the public directory, or
+    the content of one of the operator's error pages *)
 Definition body_ok (c : pcfg) (P : pos) (b : bytes) : Prop :=
-  b = errpage \/ b = cors_denied \/ b = [] \/ (exists k s, In (k, (b, s)) (pc_handlers c)) \/ inside P b.
+  b = errpage \/ b = cors_denied \/ b = [] \/ (exists k s, In (k, (b, s)) (pc_handlers c)) \/ inside P b \/
+  error_page_of c b.
 
 Definition answer_ok (c : pcfg) (P : pos) (x : xval) : Prop :=
   match x with
-  | XL [XN _; XB b; _] => body_ok c P b
+  | XL [XN _; XB b; _; _] => body_ok c P b
   | _ => True
   end.
 
 Definition cache_ok (c : pcfg) (P : pos) (cache : cache_t) : Prop :=
   Forall (fun kv => body_ok c P (c_body (snd kv))) cache.
 
+Definition state_ok (c : pcfg) (P : pos) (st : pstate) : Prop :=
+  cache_ok c P (fst st) /\ fc_coherent (pc_fs c) (snd st).
+
 Lemma serve_cached_cases h fs m ov cr p :
-  fst (serve h fs m ov (Some cr) p) = {| r_status := r_status cr; r_body := r_body cr; r_from_cache := true |} \/
+  fst (serve h fs m ov (Some cr) p) =
+    {| r_status := r_status cr; r_body := r_body cr; r_err := r_err cr; r_from_cache := true |} \/
   serve h fs m ov (Some cr) p = serve h fs m ov None p.
 Proof.
-  unfold serve. destruct (sanitize_path p) as [u| |]; destruct m; cbn [fst]; auto.
+  rewrite !serve_unfold. cbn zeta. destruct (sanitize_path p) as [u| |]; destruct m; cbn [fst]; auto.
 Qed.
 
 Lemma serve_body_inside h root cwd P m ov cached p r ev c :
@@ -45,6 +56,18 @@ Proof.
     + rewrite S in E. cbn [fst] in E. subst r. cbn [r_body] in Hb. rewrite (Hc cr eq_refl) in Hb. discriminate.
     + rewrite E in S. exact (served_file_inside_lemma h root cwd P m ov p r ev c Bh Wr Wc RP S Hb).
   - exact (served_file_inside_lemma h root cwd P m ov p r ev c Bh Wr Wc RP S Hb).
+Qed.
+
+Lemma serve_err_content h fs m ov cached p r ev c :
+  (forall cr, cached = Some cr -> r_err cr = None) ->
+  serve h fs m ov cached p = (r, ev) -> r_err r = Some c -> fs (error_path h (r_status r)) = Some c.
+Proof.
+  intros Hc S Hb.
+  destruct cached as [cr|].
+  - destruct (serve_cached_cases h fs m ov cr p) as [E|E].
+    + rewrite S in E. cbn [fst] in E. subst r. cbn [r_err] in Hb. rewrite (Hc cr eq_refl) in Hb. discriminate.
+    + rewrite E in S. exact (err_content_lemma h fs m ov p r ev c S Hb).
+  - exact (err_content_lemma h fs m ov p r ev c S Hb).
 Qed.
 
 Lemma handler_last_in k l : forall i acc j v,
@@ -73,12 +96,17 @@ Qed.
 Lemma cache_get_ok c P k cache cr : cache_ok c P cache -> cache_get k cache = Some cr -> body_ok c P (c_body cr).
 Proof.
   intros Hc. induction Hc as [|[k' v] l Hv Hl IH]; cbn [cache_get]; [discriminate|].
-  destruct (beq k' k); [intros H; inversion H; subst; exact Hv|exact IH].
+  destruct (ckey_eqb k' k); [intros H; inversion H; subst; exact Hv|exact IH].
 Qed.
 
-Lemma hit_ok c P (b : bool) k cache cr :
-  cache_ok c P cache -> (if b then cache_get k cache else None) = Some cr -> body_ok c P (c_body cr).
-Proof. intros Hc. destruct b; [apply cache_get_ok; exact Hc|discriminate]. Qed.
+Lemma cache_lookup_ok c P on kpq kp cache cr :
+  cache_ok c P cache -> cache_lookup on kpq kp cache = Some cr -> body_ok c P (c_body cr).
+Proof.
+  intros Hc. unfold cache_lookup. destruct on; [|discriminate].
+  destruct (cache_get kpq cache) as [e|] eqn:E.
+  - intros H. inversion H; subst. exact (cache_get_ok c P _ _ _ Hc E).
+  - apply cache_get_ok. exact Hc.
+Qed.
 
 Section History.
   Variable c : pcfg.
@@ -89,90 +117,132 @@ Section History.
   Hypothesis Fs : pc_fs c = read_path root cwd.
   Hypothesis RP : resolve_path root cwd (h_path (pc_host c) ++ [c_slash] ++ h_public (pc_host c)) = Some P.
 
-  Lemma step_request_ok cache m t k :
-    cache_ok c P cache ->
-    answer_ok c P (fst (step_request c cache m t k)) /\ cache_ok c P (snd (step_request c cache m t k)).
+  Variable f : front.
+
+  Lemma step_request_ok st m t k :
+    state_ok c P st ->
+    answer_ok c P (fst (step_request_with f (fmt_std c) c st m t k)) /\
+    state_ok c P (snd (step_request_with f (fmt_std c) c st m t k)).
   Proof.
-    intros Hc. unfold step_request.
-    destruct (negb (starts_with [c_slash] t)); [split; [exact I|exact Hc]|].
-    destruct (uri_path t) as [p|]; [|split; [exact I|exact Hc]].
+    intros [Hc Hf]. unfold step_request_with.
+    destruct (f_uri f t) as [[p q]|]; [|split; [exact I|split; assumption]].
     cbn zeta.
-    set (ov := override_of (pc_default_ext c) m k).
-    set (key := match ov with Some k0 => k0 | None => primed_path (pc_host c) p end).
-    destruct (if pc_cache c then cache_get key cache else None) as [cr0|] eqn:Hit.
-    - pose proof (hit_ok c P (pc_cache c) key cache cr0 Hc Hit) as Hcr0.
-      destruct (serve (pc_host c) (pc_fs c) (meth_of m) ov (option_map abstract (Some cr0)) p) as [r ev] eqn:S.
-      destruct (r_status r =? 0); [split; [exact I|exact Hc]|].
+    set (k' := f_kind f t k).
+    set (ov := override_of (pc_default_ext c) m k').
+    destruct (keys_of ov (primed_path (pc_host c) p) q) as [kpq kp].
+    destruct (cache_lookup (pc_cache c) kpq kp (fst st)) as [cr0|] eqn:Hit.
+    - pose proof (cache_lookup_ok c P _ _ _ _ _ Hc Hit) as Hcr0.
+      pose proof (fcache_transparent_lemma (pc_host c) (pc_fs c) (pc_fcache c) (snd st) (meth_of m) ov
+                    (option_map abstract (Some cr0)) p Hf) as T.
+      destruct (serve_st (pc_host c) (pc_fs c) (pc_fcache c) (snd st) (meth_of m) ov (option_map abstract (Some cr0)) p)
+        as [[[r ev] fc'] os].
+      destruct T as (T1 & T2 & _). symmetry in T1.
+      destruct (r_status r =? 0); [split; [exact I|split; assumption]|].
       destruct (r_from_cache r).
-      + split; [exact Hcr0|exact Hc].
+      + split; [exact Hcr0|split; [exact Hc|exact T2]].
       + assert (Hb : body_ok c P (c_body
                    match find_run ev with
-                   | Some k0 => prepare_response c k0 k
-                   | None => match r_body r with
-                             | Some content => {| c_status := r_status r; c_body := content; c_store := true |}
-                             | None => {| c_status := r_status r; c_body := errpage; c_store := true |}
-                             end
+                   | Some k0 => prepare_response c k0 k'
+                   | None => {| c_status := r_status r;
+                                c_body := match r_body r, r_err r with
+                                          | Some content, _ => content
+                                          | None, Some page => page
+                                          | None, None => errpage
+                                          end;
+                                c_store := negb (r_status r =? E_UNSAFE); c_qm := false |}
                    end)).
-        { destruct (find_run ev); [apply prepare_response_ok|].
-          destruct (r_body r) as [content|] eqn:Hbody; cbn [c_body]; [|left; reflexivity].
-          right. right. right. right. rewrite Fs in S.
-          refine (serve_body_inside (pc_host c) root cwd P (meth_of m) ov _ p r ev content Bh Wr Wc RP _ S Hbody).
-          intros cr E. cbn [option_map] in E. inversion E. reflexivity. }
+        { destruct (find_run ev); [apply prepare_response_ok|]. cbn [c_body].
+          destruct (r_body r) as [content|] eqn:Hbody.
+          - right. right. right. right. left. rewrite Fs in T1.
+            refine (serve_body_inside (pc_host c) root cwd P (meth_of m) ov _ p r ev content Bh Wr Wc RP _ T1 Hbody).
+            intros cr E. cbn [option_map] in E. inversion E. reflexivity.
+          - destruct (r_err r) as [page|] eqn:Herr; [|left; reflexivity].
+            right. right. right. right. right. exists (r_status r).
+            refine (serve_err_content (pc_host c) (pc_fs c) (meth_of m) ov _ p r ev page _ T1 Herr).
+            intros cr E. cbn [option_map] in E. inversion E. reflexivity. }
         split; [exact Hb|].
-        match goal with |- cache_ok _ _ (snd (_, if ?s then _ else _)) => destruct s end; cbn [snd];
-          [constructor; [exact Hb|exact Hc]|exact Hc].
-    - destruct (serve (pc_host c) (pc_fs c) (meth_of m) ov (option_map abstract None) p) as [r ev] eqn:S.
-      destruct (r_status r =? 0); [split; [exact I|exact Hc]|].
+        match goal with |- state_ok _ _ (snd (_, (if ?s then _ else _, _))) => destruct s end; cbn [snd];
+          (split; [|exact T2]); cbn [fst]; [constructor; [exact Hb|exact Hc]|exact Hc].
+    - pose proof (fcache_transparent_lemma (pc_host c) (pc_fs c) (pc_fcache c) (snd st) (meth_of m) ov
+                    (option_map abstract None) p Hf) as T.
+      destruct (serve_st (pc_host c) (pc_fs c) (pc_fcache c) (snd st) (meth_of m) ov (option_map abstract None) p)
+        as [[[r ev] fc'] os].
+      destruct T as (T1 & T2 & _). symmetry in T1.
+      destruct (r_status r =? 0); [split; [exact I|split; assumption]|].
       assert (Hb : body_ok c P (c_body
                    match find_run ev with
-                   | Some k0 => prepare_response c k0 k
-                   | None => match r_body r with
-                             | Some content => {| c_status := r_status r; c_body := content; c_store := true |}
-                             | None => {| c_status := r_status r; c_body := errpage; c_store := true |}
-                             end
+                   | Some k0 => prepare_response c k0 k'
+                   | None => {| c_status := r_status r;
+                                c_body := match r_body r, r_err r with
+                                          | Some content, _ => content
+                                          | None, Some page => page
+                                          | None, None => errpage
+                                          end;
+                                c_store := negb (r_status r =? E_UNSAFE); c_qm := false |}
                    end)).
-      { destruct (find_run ev); [apply prepare_response_ok|].
-        destruct (r_body r) as [content|] eqn:Hbody; cbn [c_body]; [|left; reflexivity].
-        right. right. right. right. rewrite Fs in S.
-        refine (serve_body_inside (pc_host c) root cwd P (meth_of m) ov _ p r ev content Bh Wr Wc RP _ S Hbody).
-        intros cr E. discriminate. }
+      { destruct (find_run ev); [apply prepare_response_ok|]. cbn [c_body].
+        destruct (r_body r) as [content|] eqn:Hbody.
+        - right. right. right. right. left. rewrite Fs in T1.
+          refine (serve_body_inside (pc_host c) root cwd P (meth_of m) ov _ p r ev content Bh Wr Wc RP _ T1 Hbody).
+          intros cr E. discriminate.
+        - destruct (r_err r) as [page|] eqn:Herr; [|left; reflexivity].
+          right. right. right. right. right. exists (r_status r).
+          refine (serve_err_content (pc_host c) (pc_fs c) (meth_of m) ov _ p r ev page _ T1 Herr).
+          intros cr E. discriminate. }
       destruct (r_from_cache r).
       all: (split; [exact Hb|]);
-        match goal with |- cache_ok _ _ (snd (_, if ?s then _ else _)) => destruct s end; cbn [snd];
-          [constructor; [exact Hb|exact Hc]|exact Hc].
+        match goal with |- state_ok _ _ (snd (_, (if ?s then _ else _, _))) => destruct s end; cbn [snd];
+          (split; [|exact T2]); cbn [fst]; [constructor; [exact Hb|exact Hc]|exact Hc].
   Qed.
 
-  Lemma step_op_ok cache o :
-    cache_ok c P cache ->
-    answer_ok c P (fst (step_op c cache o)) /\ cache_ok c P (snd (step_op c cache o)).
+  Lemma strip_head_body_ok m x : answer_ok c P x -> answer_ok c P (strip_head_body m x).
   Proof.
-    intros Hc. destruct o as [m t k|from to_]; cbn [step_op].
-    - apply step_request_ok. exact Hc.
-    - destruct (if pc_cache c then cache_get from cache else None) as [cr|] eqn:Hit; cbn [fst snd].
-      + split; [exact I|]. constructor; [|exact Hc]. cbn [snd]. exact (hit_ok c P _ _ _ _ Hc Hit).
-      + split; [exact I|exact Hc].
+    unfold strip_head_body. destruct (beq m (B "HEAD")); [|exact (fun H => H)].
+    destruct x as [n|b|l]; try exact (fun H => H).
+    destruct l as [|x1 l]; [exact (fun H => H)|]. destruct x1 as [n|b|l1]; try exact (fun H => H).
+    destruct l as [|x2 l]; [exact (fun H => H)|]. destruct x2 as [n2|b|l2]; try exact (fun H => H).
+    destruct l as [|x3 l]; [exact (fun H => H)|]. destruct l as [|x4 l]; [exact (fun H => H)|].
+    destruct l; [|exact (fun H => H)]. intros _. right. right. left. reflexivity.
   Qed.
 
-  Lemma run_history_ok ops : forall cache, cache_ok c P cache -> Forall (answer_ok c P) (run_history c cache ops).
+  Lemma step_op_ok st o :
+    state_ok c P st ->
+    answer_ok c P (fst (step_op_with f (fmt_std c) c st o)) /\ state_ok c P (snd (step_op_with f (fmt_std c) c st o)).
   Proof.
-    induction ops as [|o ops IH]; intros cache Hc; cbn [run_history]; [constructor|].
-    destruct (step_op_ok cache o Hc) as [Ha Hc'].
-    destruct (step_op c cache o) as [out cache']. cbn [fst snd] in Ha, Hc'.
-    constructor; [exact Ha|apply IH; exact Hc'].
+    intros Hs. destruct o as [m t k|from to_]; cbn [step_op_with].
+    - destruct (f_sendable f m t); [|split; [exact I|exact Hs]].
+      pose proof (step_request_ok st m t k Hs) as [Ha Hs'].
+      destruct (step_request_with f (fmt_std c) c st m t k) as [out st']. cbn [fst snd] in *.
+      split; [|exact Hs']. destruct (f_headless f); [apply strip_head_body_ok|]; exact Ha.
+    - destruct Hs as [Hc Hf].
+      destruct (if pc_cache c then cache_get (KPath from) (fst st) else None) as [cr|] eqn:Hit; cbn [fst snd].
+      + split; [exact I|]. split; [|exact Hf]. cbn [fst]. constructor; [|exact Hc]. cbn [snd].
+        destruct (pc_cache c); [|discriminate]. exact (cache_get_ok c P _ _ _ Hc Hit).
+      + split; [exact I|split; assumption].
+  Qed.
+
+  Lemma run_history_ok ops : forall st, state_ok c P st -> Forall (answer_ok c P) (run_history_with f (fmt_std c) c st ops).
+  Proof.
+    induction ops as [|o ops IH]; intros st Hs; cbn [run_history_with]; [constructor|].
+    destruct (step_op_ok st o Hs) as [Ha Hs'].
+    destruct (step_op_with f (fmt_std c) c st o) as [out st']. cbn [fst snd] in Ha, Hs'.
+    constructor; [exact Ha|apply IH; exact Hs'].
   Qed.
 End History.
 
-(** Every answer in every history that starts with an empty cache carries an admissible body. *)
-Lemma history_bodies_confined_lemma (c : pcfg) (root cwd P : pos) (ops : list op) :
+(** Every answer in every history that starts with empty caches carries an admissible body — through every
+    front end. *)
+Lemma history_bodies_confined_lemma (f : front) (c : pcfg) (root cwd P : pos) (ops : list op) :
   benign_host (pc_host c) -> wf_pos root -> wf_pos cwd -> pc_fs c = read_path root cwd ->
   resolve_path root cwd (h_path (pc_host c) ++ [c_slash] ++ h_public (pc_host c)) = Some P ->
-  Forall (answer_ok c P) (run_history c [] ops).
+  Forall (answer_ok c P) (run_history_with f (fmt_std c) c empty_state ops).
 Proof.
-  intros Bh Wr Wc Fs RP. apply (run_history_ok c root cwd P Bh Wr Wc Fs RP). constructor.
+  intros Bh Wr Wc Fs RP. apply (run_history_ok c root cwd P Bh Wr Wc Fs RP).
+  split; [constructor|apply fc_coherent_nil].
 Qed.
 
 (** ------------------------------------------------------------------ *)
-(** * An unsafe path is answered 400 in every cache state, the cache is left alone *)
+(** * An unsafe path is answered 400 in every state, the response cache is left alone *)
 Lemma silent_no_run ev : silent ev -> find_run ev = None.
 Proof.
   unfold silent. induction ev as [|e ev IH]; cbn [forallb find_run]; [reflexivity|].
@@ -184,27 +254,58 @@ Proof.
   intros H. apply andb_true_iff in H as [H1 H2]. destruct e; cbn in H1; try discriminate; cbn [app]; apply IH; exact H2.
 Qed.
 
-Lemma unsafe_step_lemma c cache m t k p :
-  starts_with [c_slash] t = true -> uri_path t = Some p -> unsafe (percent_decode p) ->
-  step_request c cache m t k = (XL [XN 400; XB errpage; XL []], cache).
+Lemma opens_of_only c os f :
+  Forall (fun x => x = f) os -> Forall (fun o => In o (open_name (pc_tree c) f)) (opens_of c os).
 Proof.
-  intros Hs Hu U. unfold step_request. rewrite Hs, Hu. cbn [negb]. cbn zeta.
-  match goal with |- context [serve ?h ?fs ?mm ?ov ?ca p] =>
-    pose proof (unsafe_is_400_and_silent_lemma h fs mm ov ca p U) as H; destruct (serve h fs mm ov ca p) as [r ev] end.
-  destruct H as (H1 & H2 & H3 & H4).
+  intros H. unfold opens_of. induction H as [|x os Hx Hos IH]; cbn [flat_map]; [constructor|].
+  subst x. apply Forall_app. split; [apply Forall_forall; auto|exact IH].
+Qed.
+
+(** In every state (whatever earlier requests and alias steps left in the response cache, any coherent
+    file cache), a request whose percent-decoded path is unsafe is answered 400; the body is the
+    generated page or the operator's page for status 400; no Prepare extension is consulted or run
+    (empty log); the only object the operating system may be asked to open is the operator's page for
+    status 400; the response cache is left as it was and the file cache changes at most under that
+    page's path. *)
+Lemma unsafe_step_lemma f c st m t k p q :
+  f_uri f t = Some (p, q) -> unsafe (percent_decode p) -> fc_coherent (pc_fs c) (snd st) ->
+  exists body opens fc',
+    step_request_with f (fmt_std c) c st m t k = (XL [XN 400; XB body; XL []; x_list XB opens], (fst st, fc')) /\
+    (body = errpage \/ pc_fs c (error_path (pc_host c) 400) = Some body) /\
+    Forall (fun o => In o (open_name (pc_tree c) (error_path (pc_host c) 400))) opens /\
+    (forall f, f <> error_path (pc_host c) 400 -> fc_get f fc' = fc_get f (snd st)).
+Proof.
+  intros Hu U Hf. unfold step_request_with. rewrite Hu. cbn zeta.
+  destruct (keys_of (override_of (pc_default_ext c) m (f_kind f t k)) (primed_path (pc_host c) p) q) as [kpq kp].
+  set (cached := option_map abstract (cache_lookup (pc_cache c) kpq kp (fst st))).
+  set (ov := override_of (pc_default_ext c) m (f_kind f t k)).
+  pose proof (unsafe_is_400_and_silent_st_lemma (pc_host c) (pc_fs c) (pc_fcache c) (snd st) (meth_of m) ov cached p U) as H.
+  pose proof (fcache_transparent_lemma (pc_host c) (pc_fs c) (pc_fcache c) (snd st) (meth_of m) ov cached p Hf) as T.
+  assert (E : forall rr evv cc, serve (pc_host c) (pc_fs c) (meth_of m) ov cached p = (rr, evv) ->
+                r_err rr = Some cc -> pc_fs c (error_path (pc_host c) (r_status rr)) = Some cc).
+  { intros rr evv cc. apply serve_err_content. intros cr X. subst cached.
+    destruct (cache_lookup (pc_cache c) kpq kp (fst st)); [|discriminate]. inversion X. reflexivity. }
+  destruct (serve_st (pc_host c) (pc_fs c) (pc_fcache c) (snd st) (meth_of m) ov cached p) as [[[r ev] fc'] os].
+  destruct H as (H1 & H2 & H3 & H4 & H5 & H6). destruct T as (T1 & _). symmetry in T1.
   rewrite H1, H3, H2, (silent_no_run ev H4), (silent_no_log c ev H4).
-  cbn. rewrite !andb_false_r. reflexivity.
+  change (400 =? 0) with false. cbn iota.
+  exists (match r_err r with Some page => page | None => errpage end), (opens_of c os), fc'.
+  split.
+  { destruct (cache_lookup (pc_cache c) kpq kp (fst st)); cbn; rewrite ?andb_false_r; reflexivity. }
+  split.
+  { destruct (r_err r) as [page|] eqn:Er; [|left; reflexivity]. right. rewrite <- H1. exact (E r ev page T1 Er). }
+  split; [apply opens_of_only; exact H5|exact H6].
 Qed.
 
 (** ------------------------------------------------------------------ *)
 (** * Without a Prime override the internal routes do not exist for the request *)
 Definition strip_host (h : host_cfg) : host_cfg :=
-  {| h_path := h_path h; h_public := h_public h; h_redirect := h_redirect h; h_ext_default := h_ext_default h;
-     h_folder_default := h_folder_default h;
+  {| h_path := h_path h; h_public := h_public h; h_errors := h_errors h; h_fs := h_fs h; h_redirect := h_redirect h;
+     h_ext_default := h_ext_default h; h_folder_default := h_folder_default h;
      h_prepare_single := filter (fun k => negb (has_dot_slash_b k)) (h_prepare_single h) |}.
 Definition strip_internal (c : pcfg) : pcfg :=
-  {| pc_default_ext := pc_default_ext c; pc_cache := pc_cache c; pc_host := strip_host (pc_host c);
-     pc_fs := pc_fs c; pc_handlers := pc_handlers c |}.
+  {| pc_default_ext := pc_default_ext c; pc_cache := pc_cache c; pc_fcache := pc_fcache c; pc_host := strip_host (pc_host c);
+     pc_fs := pc_fs c; pc_tree := pc_tree c; pc_host_header := pc_host_header c; pc_handlers := pc_handlers c |}.
 
 Lemma existsb_filter_key key l :
   has_dot_slash_b key = false ->
@@ -216,29 +317,31 @@ Proof.
   - destruct (negb (has_dot_slash_b a)); cbn [existsb]; rewrite ?E; exact IH.
 Qed.
 
-Lemma primed_path_strip h p : primed_path (strip_host h) p = primed_path h p.
-Proof. reflexivity. Qed.
-
-Lemma serve_strip h fs m cached p :
-  benign_host h -> serve (strip_host h) fs m None cached p = serve h fs m None cached p.
+Lemma serve_st_strip h rd on fc m cached p :
+  benign_host h -> serve_st (strip_host h) rd on fc m None cached p = serve_st h rd on fc m None cached p.
 Proof.
-  intros Bh. unfold serve. rewrite primed_path_strip.
+  intros Bh. unfold serve_st.
+  assert (E : forall st ev os, err_reply (strip_host h) rd on fc st ev os = err_reply h rd on fc st ev os) by reflexivity.
   destruct (sanitize_path p) as [u| |] eqn:S; [|reflexivity|reflexivity].
   apply sanitize_ok_safe in S. apply (primed_safe h p Bh) in S.
   assert (N : has_dot_slash_b (primed_path h p) = false).
-  { destruct (has_dot_slash_b (primed_path h p)) eqn:E; [|reflexivity].
-    apply pd_keeps_dot_slash in E. unfold unsafe_b in S. apply orb_false_iff in S as [S _]. congruence. }
-  cbn [strip_host h_path h_public h_prepare_single].
-  rewrite (existsb_filter_key _ _ N). reflexivity.
+  { destruct (has_dot_slash_b (primed_path h p)) eqn:E0; [|reflexivity].
+    apply pd_keeps_dot_slash in E0. unfold unsafe_b in S. apply orb_false_iff in S as [S _]. congruence. }
+  assert (F : serve_fresh (strip_host h) rd on fc m None p = serve_fresh h rd on fc m None p).
+  { unfold serve_fresh. change (primed_path (strip_host h) p) with (primed_path h p).
+    cbn [strip_host h_path h_public h_fs h_prepare_single].
+    rewrite (existsb_filter_key _ _ N). reflexivity. }
+  rewrite F. reflexivity.
 Qed.
 
-Lemma no_override_strip_lemma c cache m t k :
-  benign_host (pc_host c) -> override_of (pc_default_ext c) m k = None ->
-  step_request (strip_internal c) cache m t k = step_request c cache m t k.
+Lemma no_override_strip_lemma f c st m t k :
+  benign_host (pc_host c) -> override_of (pc_default_ext c) m (f_kind f t k) = None ->
+  step_request_with f (fmt_std (strip_internal c)) (strip_internal c) st m t k = step_request_with f (fmt_std c) c st m t k.
 Proof.
-  intros Bh Ho. unfold step_request. cbn [strip_internal pc_default_ext pc_cache pc_host pc_fs].
+  intros Bh Ho. unfold step_request_with. cbn [strip_internal pc_default_ext pc_cache pc_fcache pc_host pc_fs].
   rewrite Ho.
-  destruct (negb (starts_with [c_slash] t)); [reflexivity|].
-  destruct (uri_path t) as [p|]; [|reflexivity].
-  cbn zeta. rewrite (serve_strip _ _ _ _ _ Bh). reflexivity.
+  destruct (f_uri f t) as [[p q]|]; [|reflexivity].
+  cbn zeta. change (primed_path (strip_host (pc_host c)) p) with (primed_path (pc_host c) p).
+  destruct (keys_of None (primed_path (pc_host c) p) q) as [kpq kp].
+  rewrite (serve_st_strip _ _ _ _ _ _ _ Bh). reflexivity.
 Qed.
